@@ -96,7 +96,7 @@ static void tcp_session(vh_rng *r, int v6, long long total, int blocking, size_t
 	set_plans(r, density, kinds);
 	if (!p_socket_connect(cl, bound, &err)) { char sym[96]; snprintf(sym, sizeof sym, "connect-error code=%d errno=%d", err ? p_error_get_code(err) : 0, err ? p_error_get_native_code(err) : 0); viol(sym, "blocking connect to a loopback listener failed under injection"); goto out; }
 	ac = p_socket_accept(ls, &err);
-	if (!ac) { char sym[96]; snprintf(sym, sizeof sym, "accept-error code=%d errno=%d", err ? p_error_get_code(err) : 0, err ? p_error_get_native_code(err) : 0); viol(sym, "blocking accept with an established peer failed under injection"); p_socket_free(cl); goto out2; }
+	if (!ac) { char sym[96]; snprintf(sym, sizeof sym, "accept-error code=%d errno=%d", err ? p_error_get_code(err) : 0, err ? p_error_get_native_code(err) : 0); viol(sym, "blocking accept with an established peer failed under injection"); goto out2; }
 	p_socket_set_timeout(ac, 20000);
 	if (smallbuf) { p_socket_set_buffer_size(cl, P_SOCKET_DIRECTION_SND, 4096, NULL); p_socket_set_buffer_size(ac, P_SOCKET_DIRECTION_RCV, 4096, NULL); }
 	if (!blocking) { p_socket_set_blocking(cl, FALSE); p_socket_set_blocking(ac, FALSE); }
